@@ -50,6 +50,7 @@ def step (vals : Array Val) (j : Json) : R Val := do
   | "conj_blocks" => pure (liftE (.ok (conjBlocks T0)))
   | "flip_signature" => pure (liftE (.ok (flipSignature T0)))
   | "transpose" => do let σ ← nats (← field j "axes"); pure (liftE (transpose σ T0))
+  | "diag" => pure (liftE (diag T0))
   | "apply_mask" => do
       -- a = [diagonal mask (entries 0/1), tensor]
       let T1 ← getT vals (args.getD 1 0)
